@@ -189,7 +189,8 @@ impl ConsumerGroup {
         // Ensure consumer exists
         self.create_consumer(consumer.to_string());
         
-        // Add each entry to pending list
+        // Add each entry to pending list; an entry that was already pending changes hands
+        let mut previous_owners = Vec::new();
         for entry in &entries {
             let pending_entry = PendingEntry {
                 id: entry.id,
@@ -199,11 +200,18 @@ impl ConsumerGroup {
                 last_delivery: now,
             };
             
-            pending.add_entry(pending_entry);
+            if let Some(previous_owner) = pending.add_entry(pending_entry) {
+                previous_owners.push(previous_owner);
+            }
         }
         
         // Update consumer's pending count
         let mut consumers = self.consumers.write().unwrap();
+        for previous_owner in &previous_owners {
+            if let Some(old_consumer) = consumers.get_mut(previous_owner) {
+                old_consumer.pending_count = old_consumer.pending_count.saturating_sub(1);
+            }
+        }
         if let Some(consumer_obj) = consumers.get_mut(consumer) {
             consumer_obj.pending_count += entries.len();
             consumer_obj.last_seen = now;
@@ -212,7 +220,7 @@ impl ConsumerGroup {
         
         // Update total pending
         let mut total = self.total_pending.lock().unwrap();
-        *total += entries.len();
+        *total += entries.len() - previous_owners.len();
         
         // Update last delivered ID
         if let Some(last_entry) = entries.last() {
@@ -413,13 +421,24 @@ impl PendingEntryList {
         }
     }
     
-    /// Add an entry to the pending list
-    pub fn add_entry(&mut self, entry: PendingEntry) {
+    /// Add an entry to the pending list. If the ID was already pending it is taken away
+    /// from its previous owner, whose name is returned.
+    pub fn add_entry(&mut self, entry: PendingEntry) -> Option<String> {
         let id = entry.id;
         let consumer = entry.consumer.clone();
         
         // Add to ID index
-        self.entries_by_id.insert(id, entry);
+        let previous_owner = self.entries_by_id.insert(id, entry).map(|old| old.consumer);
+        
+        // Remove from the previous owner's index
+        if let Some(old_consumer) = &previous_owner {
+            if let Some(old_entries) = self.entries_by_consumer.get_mut(old_consumer) {
+                old_entries.retain(|&x| x != id);
+                if old_entries.is_empty() {
+                    self.entries_by_consumer.remove(old_consumer);
+                }
+            }
+        }
         
         // Add to consumer index
         self.entries_by_consumer
@@ -429,6 +448,8 @@ impl PendingEntryList {
         
         // Update min/max
         self.update_bounds();
+        
+        previous_owner
     }
     
     /// Remove an entry by ID
